@@ -184,6 +184,7 @@ func vbAdsCoq(l []vbAd) string {
 type vbEP struct {
 	Ready   *bool `json:"ready"`
 	Serving *bool `json:"serving"`
+	Term    *bool `json:"terminating,omitempty"` // EndpointCanServe does not look at it
 	Node    int   `json:"node"` // 0 = me, 1,2 = other nodes, -1 = nil
 	Addrs   []int `json:"addrs"`
 }
@@ -193,7 +194,7 @@ type vbLayout struct {
 	Eps      [][]vbEP `json:"eps"`
 }
 type vbFlags struct {
-	Node   int  `json:"node"` // 0 nil, 1 known no flag, 2 unavailable, 3 excluded, 4 both, 5 condition present with status False
+	Node   int  `json:"node"` // 0 nil, 1 known no flag, 2 unavailable, 3 excluded (label ""), 4 both (label "true"), 5 condition present with status False, 6 excluded (label "false"), 7 excluded (label "0")
 	Ignore bool `json:"ignore"`
 	Local  bool `json:"local"`
 }
@@ -218,6 +219,7 @@ func vbBuildEps(l vbLayout) []discovery.EndpointSlice {
 			}
 			ep.Conditions.Ready = e.Ready
 			ep.Conditions.Serving = e.Serving
+			ep.Conditions.Terminating = e.Term
 			if e.Node >= 0 {
 				nm := vbNodeNames[e.Node]
 				ep.NodeName = &nm
@@ -234,8 +236,16 @@ func vbBuildNode(name string, kind int) *v1.Node {
 		return nil
 	}
 	o := &v1.Node{ObjectMeta: metav1.ObjectMeta{Name: name, Labels: map[string]string{"k": "v"}}}
-	if kind == 3 || kind == 4 {
+	// the key's presence excludes the node, whatever the value
+	switch kind {
+	case 3:
 		o.Labels[v1.LabelNodeExcludeBalancers] = ""
+	case 4:
+		o.Labels[v1.LabelNodeExcludeBalancers] = "true"
+	case 6:
+		o.Labels[v1.LabelNodeExcludeBalancers] = "false"
+	case 7:
+		o.Labels[v1.LabelNodeExcludeBalancers] = "0"
 	}
 	if kind == 2 || kind == 4 {
 		o.Status.Conditions = []v1.NodeCondition{{Type: v1.NodeReady, Status: v1.ConditionTrue},
@@ -247,7 +257,7 @@ func vbBuildNode(name string, kind int) *v1.Node {
 	return o
 }
 func vbNodeFlags(kind int) (known, unavail, excl bool) {
-	return kind != 0, kind == 2 || kind == 4, kind == 3 || kind == 4
+	return kind != 0, kind == 2 || kind == 4, kind == 3 || kind == 4 || kind == 6 || kind == 7
 }
 
 func vbBuildBGPAdvs(l vbLayout) []*config.BGPAdvertisement {
@@ -463,7 +473,7 @@ func vbLayoutCoq(id int, l vbLayout, fl []vbFlags, obs []string) string {
 
 func vbAllFlags() []vbFlags {
 	var r []vbFlags
-	for nd := 0; nd <= 5; nd++ {
+	for nd := 0; nd <= 7; nd++ {
 		for ig := 0; ig < 2; ig++ {
 			for lo := 0; lo < 2; lo++ {
 				r = append(r, vbFlags{Node: nd, Ignore: ig == 1, Local: lo == 1})
@@ -476,10 +486,13 @@ func vbAllFlags() []vbFlags {
 func vbBoolPtr(r *rand.Rand) *bool { return vbPtr(r.Intn(3)) }
 
 func vbGenEP(r *rand.Rand) vbEP {
-	e := vbEP{Ready: vbBoolPtr(r), Serving: vbBoolPtr(r), Node: r.Intn(4) - 1}
-	if r.Intn(3) == 0 {
+	e := vbEP{Ready: vbBoolPtr(r), Serving: vbBoolPtr(r), Term: vbBoolPtr(r), Node: r.Intn(4) - 1}
+	switch r.Intn(6) {
+	case 0, 1:
 		b := true
 		e.Ready = &b
+	case 2: // rolling restart / drain: not ready, still serving, terminating
+		e.Ready, e.Serving, e.Term = vbPtr(2), vbPtr(1), vbPtr(1)
 	}
 	switch r.Intn(10) {
 	case 0:
@@ -563,7 +576,7 @@ func vbExhaustive(r *rand.Rand, emit func(vbLayout)) {
 		for sv := 0; sv < 3; sv++ {
 			for nd := -1; nd <= 1; nd++ {
 				for _, ad := range addrs {
-					alpha9 = append(alpha9, vbEP{Ready: vbPtr(rd), Serving: vbPtr(sv), Node: nd, Addrs: ad})
+					alpha9 = append(alpha9, vbEP{Ready: vbPtr(rd), Serving: vbPtr(sv), Term: vbPtr((rd + 2*sv) % 3), Node: nd, Addrs: ad})
 				}
 			}
 		}
@@ -571,7 +584,7 @@ func vbExhaustive(r *rand.Rand, emit func(vbLayout)) {
 	for _, cond := range [][2]int{{1, 0}, {2, 1}, {2, 2}} {
 		for nd := -1; nd <= 1; nd++ {
 			for _, ad := range addrs {
-				alpha3 = append(alpha3, vbEP{Ready: vbPtr(cond[0]), Serving: vbPtr(cond[1]), Node: nd, Addrs: ad})
+				alpha3 = append(alpha3, vbEP{Ready: vbPtr(cond[0]), Serving: vbPtr(cond[1]), Term: vbPtr(cond[1]), Node: nd, Addrs: ad})
 			}
 		}
 	}
@@ -714,6 +727,9 @@ func TestVerifBgpElig(t *testing.T) {
 	handle("corpus-f18", f18)
 	f18b := vbLayout{Advs: [][]int{{0}}, Eps: [][]vbEP{{{Ready: &T, Node: 0, Addrs: []int{1}}, {Ready: &F, Serving: &F, Node: 1, Addrs: []int{1}}}}}
 	handle("corpus-f18-without-unrelated", f18b)
+	// rolling restart: the only endpoints able to serve are not ready, serving, terminating
+	handle("corpus-terminating-serving", vbLayout{Advs: [][]int{{0, 1}}, Eps: [][]vbEP{{{Ready: &F, Serving: &T, Term: &T, Node: 0, Addrs: []int{1}}, {Ready: &F, Serving: &F, Node: 1, Addrs: []int{2}}}}})
+	handle("corpus-terminating-serving-elsewhere", vbLayout{Advs: [][]int{{0}}, Eps: [][]vbEP{{{Ready: &F, Serving: &T, Term: &T, Node: 1, Addrs: []int{1}}}, {{Ready: &F, Serving: &T, Term: &F, Node: 0, Addrs: []int{2}}}}})
 	for _, p := range vbCorpus("C10") {
 		var l vbLayout
 		if json.Unmarshal(p, &l) == nil {
